@@ -19,7 +19,7 @@ RULE = ('case = one history (sequence of encrypt/protect operations in one proce
         'distinct = distinct history descriptors; the evidence also counts distinct secret values observed')
 ASSUMPTIONS = ['unpredictability of os.urandom / OpenSSL RNG is not decidable by monitoring: freshness, size and provenance are observed',
                'ECDH ephemeral keys and RSA padding come from OpenSSL and are visible only through outputs']
-MIN_COUNTERS = {'quick': {'operations': 200, 'session_keys_checked': 150, 'prefixes_checked': 150, 'salts_checked': 40, 'ivs_checked': 15, 'ephemerals_checked': 60, 'urandom_calls_seen': 300},
+MIN_COUNTERS = {'quick': {'operations': 200, 'session_keys_checked': 150, 'prefixes_checked': 150, 'salts_checked': 40, 'ivs_checked': 15, 'ephemerals_checked': 60, 'urandom_calls_seen': 300, 'reprotect_operations': 5},
                 'thorough': {'operations': 3000}}
 BUDGET = {'quick': (240, 800), 'thorough': (1800, 3600)}
 TECHNIQUE = 'runtime monitoring: history monitor with interposed os.urandom (recording proxy) + reference extraction of secrets from outputs; freshness/size/provenance invariants'
@@ -34,7 +34,7 @@ def cases(tier, seed):
     for h in range(n_hist):
         ops = []
         while len(ops) < n_ops:
-            kind = r.choices(['enc_key', 'enc_pass', 'protect', 'enc_multi'], [6, 1.2, 0.8, 1])[0]
+            kind = r.choices(['enc_key', 'enc_pass', 'protect', 'enc_multi'], [6, 1.2, 1.4, 1])[0]
             if kind == 'enc_key':
                 op = {'op': 'enc_key', 'rc': r.choice(encwork.RECIPIENTS), 'cipher': r.choice(ciphers), 'msg': r.randrange(3)}
             elif kind == 'enc_pass':
@@ -77,6 +77,7 @@ def run_case(ctx, d):
     from pgpy.constants import SymmetricKeyAlgorithm, HashAlgorithm, CompressionAlgorithm
     rec = Recorder()
     seen = {'session_key': {}, 'prefix': {}, 'salt': {}, 'iv': {}, 'ephemeral': {}}
+    persistent = {}
     os.urandom = rec
     try:
         with warnings.catch_warnings():
@@ -86,9 +87,20 @@ def run_case(ctx, d):
                 ctx.count('evaluations')
                 rec.start()
                 if op['op'] == 'protect':
-                    k = pool.pgpy_key(op['key'], sub='cv25519_1', fresh=True, uid='protect me')
+                    # one persistent key per material name: the first protect locks it, later ones are the change-passphrase flow
+                    # (unlock, protect again -- possibly with the very same passphrase, cipher and hash)
+                    k, oldpw = persistent.get(op['key'], (None, None))
+                    if k is None:
+                        k = pool.pgpy_key(op['key'], sub='cv25519_1', fresh=True, uid='protect me')
                     rec.start()
-                    k.protect(PWS[op['pw']], getattr(SymmetricKeyAlgorithm, op['cipher']), getattr(HashAlgorithm, op['hash']))
+                    if oldpw is None:
+                        k.protect(PWS[op['pw']], getattr(SymmetricKeyAlgorithm, op['cipher']), getattr(HashAlgorithm, op['hash']))
+                    else:
+                        with k.unlock(oldpw):
+                            rec.start()
+                            k.protect(PWS[op['pw']], getattr(SymmetricKeyAlgorithm, op['cipher']), getattr(HashAlgorithm, op['hash']))
+                        ctx.count('reprotect_operations')
+                    persistent[op['key']] = (k, PWS[op['pw']])
                     window = list(rec.window)
                     blob = bytes(k)
                     for p in wire.split(blob):
